@@ -6,6 +6,10 @@ HERE="$(cd "$(dirname "$0")/.." && pwd)"
 git -C /repo diff --quiet || { echo "/repo has uncommitted changes"; exit 3; }
 git -C /repo apply "$HERE/seeded/$ID/patch.diff" || exit 3
 trap 'git -C /repo checkout -- . ' EXIT
+# evidence and replay files of runs against a seeded tree never land in /verif/evidence or /verif/replays
+SCR="$(mktemp -d /tmp/seedrun.XXXXXX)"
+export VERIF_EVIDENCE_DIR="$SCR/evidence" VERIF_REPLAY_DIR="$SCR/replays"
+trap 'git -C /repo checkout -- . ; rm -rf "$SCR"' EXIT
 for P in "$@"; do
   OUT=$("$HERE/vcheck" "$P" --tier "${TIER:-quick}" 2>&1); RC=$?
   echo "== seed $ID vs $P: exit $RC"
